@@ -38,6 +38,11 @@ def check(case, cover=False):
 
 
 def evaluate(case, c, d, cont, cover=False, label=""):
+    with oracle.scale_floor(case["dissim"]["delta"]):
+        return _evaluate(case, c, d, cont, cover, label)
+
+
+def _evaluate(case, c, d, cont, cover=False, label=""):
     spec, mode = case["dissim"], case.get("backend", "cbc")
     per = oracle.per_annotator(cont)
     with backends.backend(mode) as used:
@@ -60,15 +65,15 @@ def evaluate(case, c, d, cont, cover=False, label=""):
         method = "dp"
     else:
         up, lo = oracle.optimum_milp(lst, costs, cover)
-        method = "milp" if (up - lo) <= 1e-7 * max(1.0, abs(lo)) else "milp-gap"
+        method = "milp" if (up - lo) <= 1e-7 * max(oracle.FLOOR, abs(lo)) else "milp-gap"
     if method in ("dp", "assignment") and nunits <= 12 and case.get("xcheck", 0) == 1:
         up2, lo2 = oracle.optimum_milp(lst, costs, cover)
-        if abs(up2 - up) > 1e-7 * max(1, abs(up)):
+        if abs(up2 - up) > 1e-7 * max(oracle.FLOOR, abs(up)):
             raise HarnessError(f"oracles disagree: {method}={up} milp={up2} on {case}")
     mean_units = nunits / n
     ref_up, ref_lo = up / mean_units, lo / mean_units
     lib = float(al.disorder)
-    tol = oracle.REL_TOL * max(1.0, abs(ref_up if np.isfinite(ref_up) else ref_lo))
+    tol = oracle.REL_TOL * max(oracle.FLOOR, abs(ref_up if np.isfinite(ref_up) else ref_lo))
     if lib > ref_up + tol:
         raise Violation(f"{label}:not-minimal", f"library disorder {lib} > reference optimum {ref_up} ({method})")
     if lib < ref_lo - tol:
@@ -83,6 +88,8 @@ def evaluate(case, c, d, cont, cover=False, label=""):
         classes.append("pruned-some")
     if delta != 1:
         classes.append("delta!=1")
+    if delta < 1e-2 or delta > 1e2:
+        classes.append("extreme-delta-scale")
     if spec["kind"] == "combined":
         if spec["alpha"] == 0 or spec["beta"] == 0:
             classes.append("alpha-or-beta=0")
@@ -97,9 +104,9 @@ def evaluate(case, c, d, cont, cover=False, label=""):
 @st.composite
 def cases(draw, pairs=False):
     if pairs:
-        cs = draw(gen.continuum_and_spec(min_ann=2, max_ann=2, budget=3721, max_per=60, unlabelled_ratio=0.1, span=240))
+        cs = draw(gen.continuum_and_spec(min_ann=2, max_ann=2, budget=3721, max_per=60, unlabelled_ratio=0.1, span=240, extreme=True))
     else:
-        cs = draw(gen.continuum_and_spec(min_ann=3, max_ann=5, budget=1300, max_per=9, unlabelled_ratio=0.1))
+        cs = draw(gen.continuum_and_spec(min_ann=3, max_ann=5, budget=1300, max_per=9, unlabelled_ratio=0.1, extreme=True))
     cs["backend"] = draw(st.sampled_from(["cbc", "cbc", "glpk"]))
     cs["xcheck"] = draw(st.sampled_from([0, 0, 0, 1]))
     return cs
